@@ -29,7 +29,10 @@ def mutate(rng, s):
         first = b[0] if b else 0
         plen = {0xcc: 2, 0xcd: 3, 0xce: 5, 0xcf: 9, 0xd0: 2, 0xd1: 3, 0xd2: 5, 0xd3: 9}.get(first, 1)
         z = rng.choice([0, -1, -33, -129, 2 ** 31 - 1, 2 ** 31, 2 ** 32, 2 ** 63 - 1, 2 ** 63, 2 ** 64 - 1, -2 ** 31, -2 ** 31 - 1, -2 ** 63,
-                        2001, 5000, 1 << 20, (1 << 20) + 1, len(b) - plen + rng.below(3) - 1])
+                        2001, 5000, 1 << 20, (1 << 20) + 1, len(b) - plen + rng.below(3) - 1,
+                        # out of the 32-bit range, but the low 32 bits are the right length
+                        (len(b) - plen) + (1 << 32), (len(b) - plen) + (1 << 32), (len(b) - plen) - (1 << 32), (len(b) - plen) + (1 << 63),
+                        (len(b) - plen) + (rng.below(1 << 20) + 1) * (1 << 32)])
         if rng.chance(1, 4):
             newp = rng.choice([b"\xc0", b"\xc1", b"\xc2", b"\xc3", b"\xa1a", b"\xc4\x01a", b"\x91\x01", b"\x80", b"\xcb" + b"\0" * 8, b"\xca\0\0\0\0", b"\xd4\x01\x02"])
         else:
